@@ -58,9 +58,10 @@ def native_C02(tier, seed):
             for r in range(reps):
                 n = int(rng.choice([2, 3, 5, 17, 100, 1000 if tier == "thorough" else 60]))
                 mag = float(10 ** rng.uniform(-1, 5))
+                off = float(rng.choice([0.0, 800.0, -800.0, 1e5, -1e5, 1e4]))
                 if dtn == "float32":
-                    mag = min(mag, 1e4)
-                ll = rng.normal(size=n) * mag + float(rng.choice([0.0, 800.0, -800.0, 1e5 if dtn == "float64" else 0.0]))
+                    mag = min(mag, 30.0) if abs(off) >= 1e4 else min(mag, 1e4)
+                ll = rng.normal(size=n) * mag + off
                 lp = rng.normal(size=n)
                 lq = rng.normal(size=n)
                 kind = r % 4
@@ -110,7 +111,11 @@ def native_C02(tier, seed):
         ll, lp, lq = rng.normal(size=n) * 3, rng.normal(size=n), rng.normal(size=n)
         s = Samples(rng.normal(size=(n, 2)), log_likelihood=ll, log_prior=lp, log_q=lq)
         u = rng.uniform(size=n)
+        before = {k: np.array(np.asarray(getattr(s, k)), copy=True) for k in ("x", "log_likelihood", "log_prior", "log_q", "log_w", "weights")}
         out = s.rejection_sample(rng=U(u))
+        for k, v in before.items():
+            if not np.array_equal(np.asarray(getattr(s, k)), v):
+                fails.append({"id": f"C02-reject-frame-{k}-{r}", "obligation": f"frame: source field {k} unchanged", "what": f"rejection_sample modified the source's {k}", "input": {"seed": seed, "rep": r}})
         w = np.exp(ll + lp - lq)
         keep = u < w / w.max()
         # ties on the boundary are measure-zero; compare away from it
